@@ -761,5 +761,57 @@ def r12_13(ctx):
     return r
 
 
+CDC = "peer_connection::PeerConnection::create_data_channel"
+
+
+def r12_14(ctx):
+    """'any number of channels and concurrent senders ... of the same channel': a stream id identifies a channel. The
+    id of an in-band channel is chosen by scanning the registered channels for the first free id of the right parity,
+    then the new channel is registered. Scan and registration must happen under ONE acquisition of the registry lock:
+    two concurrent create_data_channel calls otherwise both find the same id free, and the messages of both channels
+    arrive on whichever is found first."""
+    r = RuleResult("R12.14", "K5", "create_data_channel picks the stream id and registers the channel under one lock acquisition")
+    b = ctx.body(CDC)
+    r.scope.append(CDC)
+    locks = [bi for bi, t, p in b.calls() if p and p.endswith("::lock") and t["a"] and mir.has_field(b.term_operand(t["a"][0]), "data_channels")]
+    pushes = [(bi, t) for bi, t, p in b.calls() if p and p.endswith("Vec::<T, A>::push") and t["a"] and mir.has_field(b.term_operand(t["a"][0]), "data_channels")]
+    scans = [bi for bi, t, p in b.calls() if p and p.endswith("::iter") and t["a"] and mir.has_field(b.term_operand(t["a"][0]), "data_channels")]
+    r.need("registration (push) of the new channel", len(pushes), 1)
+    r.need("scan of the registered channels", len(scans), 1)
+    if len(locks) == 1 and all(core.must_pass(b, x, locks) for x in scans + [bi for bi, _ in pushes]):
+        # ... and the guard is not given up in between: no drop of the guard local before the push
+        r.ok({"lock": b.where(locks[0]), "scan": b.where(scans[0]), "register": b.where(pushes[0][0]), "rule": "one acquisition covers both"})
+    else:
+        r.violate(CDC, "id:lock-released", b.where(pushes[0][0]),
+                  "the registry lock is taken %d times: the id scan and the registration of the new channel are separate critical sections, so "
+                  "two concurrent calls can hand out the same stream id" % len(locks))
+    return r
+
+
+def r12_15(ctx):
+    """RFC 8832 6: the DTLS client uses even stream ids, the server odd ones - that is what keeps two channels opened
+    from both ends apart. The parity must therefore come from the KNOWN role. A default for 'role not negotiated yet'
+    gives both peers the same parity: each side's first channel gets id 0, each OPEN finds 'its' stream already
+    registered at the peer, no channel is announced and the two differently labelled channels are silently one."""
+    r = RuleResult("R12.15", "K6/provenance", "the id parity of an in-band channel comes from the negotiated DTLS role, never from a default")
+    b = ctx.body(CDC)
+    r.scope.append(CDC)
+    sites = []
+    for bi, t, p in b.calls():
+        if p and p.split("::")[-1] in ("unwrap_or", "unwrap_or_default", "unwrap_or_else", "map_or") and t["a"] and \
+                mir.has_field(b.term_operand(t["a"][0]), "dtls_role"):
+            sites.append(bi)
+    reads = [bi for bi, t, p in b.calls() if p and t["a"] and mir.has_field(b.term_operand(t["a"][0]), "dtls_role")]
+    r.need("reads of the DTLS role in create_data_channel", len(reads), 1)
+    if sites:
+        for bi in sites:
+            r.violate(CDC, "id:parity-default", b.where(bi),
+                      "the stream-id parity is derived from a defaulted DTLS role (role unknown => 'client'): channels created on both sides "
+                      "before the role is negotiated both get even ids and collide")
+    else:
+        r.ok({"role": "no default applied to the DTLS role"})
+    return r
+
+
 def run(ctx):
-    return [r12_1(ctx), r12_2(ctx), r12_2b(ctx), r12_3(ctx), r12_4(ctx), r12_5(ctx), r12_6(ctx), r12_7(ctx), r12_8(ctx), r12_9(ctx), r12_10(ctx), r12_11(ctx), r12_12(ctx), r12_13(ctx)]
+    return [r12_1(ctx), r12_2(ctx), r12_2b(ctx), r12_3(ctx), r12_4(ctx), r12_5(ctx), r12_6(ctx), r12_7(ctx), r12_8(ctx), r12_9(ctx), r12_10(ctx), r12_11(ctx), r12_12(ctx), r12_13(ctx), r12_14(ctx), r12_15(ctx)]
